@@ -42,8 +42,11 @@ def enforce_pbc(lattvecs, epos):
     # final_epos = epos.copy()
     # final_epos[to_wrap, :] = np.einsum("...ij,jk->...ik", wrapped[1], lattvecs)
     # Finds position inside box and wraparound vectors (in lattice vector coordinates)
-    tmp = np.divmod(epos_lvecs_coord, 1)
-    wraparound = tmp[0]
-    final_epos = np.dot(tmp[1], lattvecs)
+    wraparound, frac = np.divmod(epos_lvecs_coord, 1)
+    # divmod(-1e-17, 1) is (-1, 1.0) because 1 - 1e-17 rounds to 1; keep the fractional part in [0, 1)
+    on_face = frac >= 1.0
+    frac[on_face] -= 1.0
+    wraparound[on_face] += 1.0
+    final_epos = np.dot(frac, lattvecs)
 
     return final_epos, wraparound
